@@ -16,8 +16,10 @@ ID = "C19"
 LEVEL = "exploration"
 RULE = ("Hypothesis-generated histories (<=20 ops) with Dynamic.time_dependent on: time jumps (ints incl. negative and -1; "
         "Fractions after switching time_type), +=/-=, reads, double reads, inspect_value, nested `with time:` blocks with "
-        "jumps inside, state push/pop pairs, over 2 classes x 2 instances holding generators (UniformRandom, NormalRandom, "
-        "UniformRandomInt, Choice, ScaledTime, ExponentialDecay, SquareWave and arithmetic compositions) drawn from small "
+        "jumps inside, state push/pop pairs (incl. producing a value with the same time stamp before the pop), int / Fraction / float clocks, "
+        "over 2 classes x 2 instances holding generators (UniformRandom, NormalRandom, UniformRandomInt, Choice, ScaledTime, "
+        "ExponentialDecay, SquareWave, TimeSampledFn, history-dependent random streams - one value per time - and arithmetic "
+        "compositions; one instance may follow a generator assigned on the class after it got its own Parameter objects) drawn from small "
         "(name, seed) pools so that equal generators sit on different instances; oracle = first-value table keyed by "
         "(generator identity, time). Non-trivial = some (generator, time) is read at least twice with a different time "
         "visited in between, or a context/push-pop encloses a jump; distinct = case hash.")
@@ -26,15 +28,16 @@ ASSUMPTIONS = [
     "param.random_seed is left at its default; times stay far below 2**32",
     "Dynamic.time_dependent / the global clock / its time_type are restored after every case",
 ]
-SIZES = {"quick": 700, "thorough": 6000}
+SIZES = {"quick": 1000, "thorough": 6000}
 
 NAMESP = ["g0", "g1"]
 SEEDS = [1, 2]
-KINDS = ["uniform", "normal", "randint", "choice", "scaled", "decay", "square"]
+KINDS = ["uniform", "normal", "randint", "choice", "scaled", "decay", "square", "stream", "sampled"]
 
 
 def _leaf_gen():
-    return st.tuples(st.sampled_from(KINDS), st.integers(0, 1), st.integers(0, 1), st.integers(0, 2)).map(list)
+    return st.tuples(st.sampled_from(KINDS + ["stream", "stream", "sampled"]), st.integers(0, 1), st.integers(0, 1),
+                     st.integers(0, 2)).map(list)
 
 
 def _gen_spec():
@@ -69,6 +72,8 @@ def _ops(depth=0):
         st.tuples(st.just("pushjump"), inst, pn, st.integers(-3, 8)),
         # read here, jump away, force a new value there, jump back, read here again
         st.tuples(st.just("forceback"), inst, pn, st.integers(-3, 8)),
+        # read, push, produce a new value carrying the *same* time stamp (forced, or by leaving and coming back), pop
+        st.tuples(st.just("pushsame"), inst, pn, st.sampled_from(["force", "roundtrip"]), st.integers(-3, 8)),
     ]
     if depth < 2:
         base.append(st.tuples(st.just("ctx"), st.lists(st.deferred(lambda: _ops(depth + 1)), max_size=4)))
@@ -86,7 +91,11 @@ def _case(draw):
     ops = draw(st.lists(_ops(), min_size=2, max_size=20))
     # the very same generator object may also sit behind a second parameter, alone or inside `g + c`
     share = draw(st.one_of(st.none(), st.tuples(st.integers(0, 7), st.integers(0, 7), st.sampled_from([0, 0, 10]))))
-    return {"gens": gens, "fraction_time": draw(st.booleans()), "ops": ops, "share": list(share) if share else None}
+    return {"gens": gens, "time_mode": draw(st.sampled_from(["int", "fraction", "float"])), "ops": ops,
+            "share": list(share) if share else None,
+            # inst0 gets no generator of its own for n1: it owns a per-instance Parameter copy and then follows a generator
+            # assigned on the class
+            "class_gen": draw(st.booleans())}
 
 
 def strategy(tier):
@@ -111,6 +120,12 @@ def _build(spec):
             return ng.ExponentialDecay(starting_value=2.0 + v, time_constant=5.0)
         if k == "square":
             return ng.SquareWave(onset=0.0, duration=1.0 + v, off_duration=2.0)
+        if k == "stream":
+            # a plain random stream: its values depend on how often it was called; Dynamic caches one value per time
+            return ng.UniformRandom(name=name, seed=seed + 10 * v)
+        if k == "sampled":
+            return ng.TimeSampledFn(period=[0.7, 0.3, 1.5][v], offset=0.0,
+                                    fn=ng.UniformRandom(name=name, seed=seed, time_dependent=True))
     if k == "add":
         return _build(spec[1]) + _build(spec[2])
     if k == "mulc":
@@ -125,12 +140,18 @@ def _build(spec):
 
 
 def _ident(spec):
+    """identity of the function of time a generator computes; None for a history-dependent stream"""
     k = spec[0]
+    if k == "stream":
+        return None
     if k in ("scaled", "decay", "square"):
         return (k, spec[3])                   # deterministic functions of time: name and seed play no role
     if k in KINDS:
         return tuple(spec)
-    return (k,) + tuple(_ident(s) if isinstance(s, list) else s for s in spec[1:])
+    parts = tuple(_ident(s) if isinstance(s, list) else s for s in spec[1:])
+    if any(p is None for p, s in zip(parts, spec[1:]) if isinstance(s, list)):
+        return None
+    return (k,) + parts
 
 
 def execute(case):
@@ -158,14 +179,22 @@ def _run(case, res, tf):
     if share and share[0] != share[1]:
         src, dst, c = share
         gens[dst] = gens[src] if c == 0 else gens[src] + c
-        idents[dst] = idents[src] if c == 0 else ("shared_plus", c, idents[src])
+        idents[dst] = idents[src] if c == 0 or idents[src] is None else ("shared_plus", c, idents[src])
         res.label("shared_generator_object")
     for i in range(4):
         cls = P if i < 2 else Q
-        insts.append(cls(n0=gens[2 * i], n1=gens[2 * i + 1]))
+        if i == 0 and case.get("class_gen"):
+            o = cls(n0=gens[0])
+            o.param["n1"]                   # per-instance Parameter copy, made while the class default is still plain
+            P.n1 = gens[1]
+            insts.append(o)
+            res.label("instance_follows_class_level_generator")
+        else:
+            insts.append(cls(n0=gens[2 * i], n1=gens[2 * i + 1]))
     table = {}
     visits = {}        # key -> list of global read counters
-    last_val = {}      # (inst, pn) -> last produced value
+    last_val = {}      # generator object -> last produced value
+    last_time = {}     # generator object -> time of the last production
     ever_read = set()  # generator slots read at least once
     st_ = {"reads": 0, "times_seen": [], "revisit": False, "ctx_jump": False, "fraction": False, "kf": False}
 
@@ -181,9 +210,24 @@ def _run(case, res, tf):
         name = "n%d" % pn
         t = now()
         first_at_minus1 = (slot not in ever_read) and t == -1
+        raw = tf()
         v = getattr(insts[i], name)
+        if tf() != raw or type(tf()) is not type(raw):
+            res.fail("C19.read_moves_time", f"reading inst{i}.{name} at time {raw!r} left the clock at {tf()!r}")
+            tf(raw)
         ever_read.add(slot)
         st_["reads"] += 1
+        if idents[slot] is None:
+            # a history-dependent stream: one value per time at which it is produced
+            k_ = lk(i, pn)
+            if last_time.get(k_) == t and k_ in last_val:
+                if v != last_val[k_]:
+                    res.fail("C19.repeated_read_differs", f"stream generator behind inst{i}.{name}: read {v!r} at time {t}, "
+                                                          f"the value produced at that time was {last_val[k_]!r}")
+            last_val[k_] = v
+            last_time[k_] = t
+            st_["times_seen"].append(t)
+            return v
         key = (idents[slot], t)
         mark = "[first-read-at-minus-one] " if first_at_minus1 else ""
         if first_at_minus1:
@@ -204,6 +248,7 @@ def _run(case, res, tf):
         visits.setdefault(key, []).append(len(st_["times_seen"]))
         st_["times_seen"].append(t)
         last_val[lk(i, pn)] = v
+        last_time[lk(i, pn)] = t
         if share and share[0] != share[1] and slot in (share[0], share[1]):
             other = share[1] if slot == share[0] else share[0]
             ok = (idents[other], t)
@@ -214,11 +259,18 @@ def _run(case, res, tf):
                                                                f"{a!r} and {b!r} (expected second == first + {share[2]})")
         return v
 
+    def tval(n):
+        if st_["fraction"]:
+            return Fraction(n)
+        if st_.get("float"):
+            return n * 0.3                # 2.1, 2.4, ... : not exactly representable
+        return n
+
     def run(op, depth):
         k = op[0]
         res.label("op:" + k)
         if k == "jump":
-            tf(Fraction(op[1]) if st_["fraction"] else op[1])
+            tf(tval(op[1]))
             st_["times_seen"].append(now())
         elif k == "adv":
             tf.__iadd__(op[1])
@@ -255,28 +307,46 @@ def _run(case, res, tf):
                 return
             v = insts[i].param.force_new_dynamic_value("n%d" % pn)
             key = (idents[slot], now())
-            if key in table and table[key] != v:
+            if idents[slot] is not None and key in table and table[key] != v:
                 res.fail("C19.not_a_function_of_time", f"force_new_dynamic_value(inst{i}.n{pn}) at time {now()} gave {v!r}, "
                                                       f"the value of that generator at that time is {table[key]!r}")
-            table.setdefault(key, v)
+            if idents[slot] is not None:
+                table.setdefault(key, v)
             last_val[lk(i, pn)] = v
+            last_time[lk(i, pn)] = now()
         elif k == "forceback":
             i, pn = op[1], op[2]
             t0 = tf()
             read(i, pn)
-            tf(Fraction(op[3]) if st_["fraction"] else op[3])
+            tf(tval(op[3]))
             st_["times_seen"].append(now())
             run(["force", i, pn], depth)
             tf(t0)
             st_["times_seen"].append(now())
             read(i, pn)
+        elif k == "pushsame":
+            i, pn = op[1], op[2]
+            read(i, pn)
+            sub = [["force", i, pn]] if op[3] == "force" else [["jump", op[4]], ["read", i, pn], ["jump", None], ["read", i, pn]]
+            if op[3] == "roundtrip":
+                sub[2] = ["jumpraw", tf()]
+            run(["pushpop", i, sub], depth)
+            read(i, pn)
+        elif k == "jumpraw":
+            tf(op[1])
+            st_["times_seen"].append(now())
         elif k == "pushjump":
             i, pn = op[1], op[2]
+            saved = {lk(i, q): (last_val.get(lk(i, q)), last_time.get(lk(i, q))) for q in (0, 1)}
             insts[i].param._state_push()
-            tf(Fraction(op[3]) if st_["fraction"] else op[3])
+            tf(tval(op[3]))
             st_["times_seen"].append(now())
             read(i, pn)
             insts[i].param._state_pop()
+            for g_, (lv, lt) in saved.items():
+                last_time[g_] = lt
+                if lt is not None:
+                    last_val[g_] = lv
             read(i, pn)
             st_["ctx_jump"] = True
         elif k == "ctx":
@@ -293,6 +363,7 @@ def _run(case, res, tf):
         elif k == "pushpop":
             i = op[1]
             before = {pn: insts[i].param.inspect_value("n%d" % pn) for pn in (0, 1)}
+            saved_t = {lk(i, q): last_time.get(lk(i, q)) for q in (0, 1)}
             insts[i].param._state_push()
             n0 = len(st_["times_seen"])
             t0 = now()
@@ -309,11 +380,17 @@ def _run(case, res, tf):
                                                       f"after _state_pop")
                 if lk(i, pn) in last_val:
                     last_val[lk(i, pn)] = v
+                last_time[lk(i, pn)] = saved_t[lk(i, pn)]
 
-    if case["fraction_time"]:
+    mode = case.get("time_mode") or ("fraction" if case.get("fraction_time") else "int")
+    if mode == "fraction":
         tf(0, time_type=Fraction)
         st_["fraction"] = True
         res.label("fraction_time")
+    elif mode == "float":
+        tf(0.0, time_type=float)
+        st_["float"] = True
+        res.label("float_time")
     for op in case["ops"]:
         run(op, 0)
     res.nontrivial = st_["revisit"] or st_["ctx_jump"]
